@@ -28,6 +28,7 @@ type built struct {
 	again   func() zapcore.Field // independently re-built from equal inputs
 	want    []rec.Call
 	anyF    *zapcore.Field // zap.Any(key, v) when the row's type is supported by Any
+	anyAlt  *zapcore.Field // a second typed constructor that corresponds equally well (either accepted)
 	desc    string
 	noRefl  bool // payload not equal to itself under the documented comparison (excluded from reflexivity only)
 	boundry bool
@@ -213,7 +214,11 @@ func rows() []row {
 			type withFunc struct{ F func() }
 			var v any
 			noRefl := false
-			switch g.R.Intn(7) {
+			switch g.R.Intn(9) {
+			case 7:
+				v = holder{hidden(g)} // comparable struct type, uncomparable contents
+			case 8:
+				v = [1]interface{}{hidden(g)}
 			case 0:
 				v = nil
 			case 1:
@@ -238,11 +243,13 @@ func rows() []row {
 			s := g.Str()
 			var v fmt.Stringer = strer{s}
 			var want []rec.Call
-			switch g.R.Intn(4) {
+			switch g.R.Intn(5) {
 			case 0: // uncomparable dynamic type
 				v = stringerSlice{s}
 			case 1:
 				v = stringerMap{"k": s}
+			case 2: // comparable struct type, uncomparable contents
+				v = strHolder{hidden(g)}
 			}
 			want = call("str", key, v.String())
 			a := zap.Any(key, v)
@@ -255,6 +262,8 @@ func rows() []row {
 			var e error = errors.New(g.Str())
 			if g.R.P(1, 3) {
 				e = errSlice{g.Str()}
+			} else if g.R.P(1, 3) {
+				e = errHolder{hidden(g)}
 			}
 			a := zap.Any(key, e)
 			return built{f: zap.NamedError(key, e), again: func() zapcore.Field { return zap.NamedError(key, e) }, want: call("str", key, e.Error()), anyF: &a, desc: fmt.Sprintf("NamedError(%q,%T)", key, e)}
@@ -281,6 +290,11 @@ func rows() []row {
 			return built{f: zap.Errors(key, es), again: func() zapcore.Field { return zap.Errors(key, clone(es)) }, want: []rec.Call{{Kind: "array", Key: key, Sub: sub}}, anyF: &a, desc: fmt.Sprintf("Errors(%q,%d)", key, n)}
 		}},
 		{"Object", func(g *gen.G, key string) built {
+			if g.R.P(1, 3) {
+				o := omHolder{g.Key(), hidden(g)}
+				a := zap.Any(key, o)
+				return built{f: zap.Object(key, o), again: func() zapcore.Field { return zap.Object(key, o) }, want: []rec.Call{{Kind: "object", Key: key, Sub: call("str", o.k, "v")}}, anyF: &a, desc: "Object(comparable struct with uncomparable contents)"}
+			}
 			o := om{g.Key()}
 			a := zap.Any(key, o)
 			return built{f: zap.Object(key, o), again: func() zapcore.Field { return zap.Object(key, o) }, want: []rec.Call{{Kind: "object", Key: key, Sub: call("str", o.k, "v")}}, anyF: &a, desc: "Object"}
@@ -290,6 +304,10 @@ func rows() []row {
 				d := zap.DictObject(zap.Int("a", 1), zap.String("b", "x"))
 				return built{f: zap.Inline(d), again: func() zapcore.Field { return zap.Inline(zap.DictObject(zap.Int("a", 1), zap.String("b", "x"))) },
 					want: []rec.Call{{Kind: "int", Key: "a", Val: int64(1)}, {Kind: "str", Key: "b", Val: "x"}}, desc: "Inline(DictObject)"}
+			}
+			if g.R.P(1, 3) {
+				o := omHolder{g.Key(), hidden(g)}
+				return built{f: zap.Inline(o), again: func() zapcore.Field { return zap.Inline(o) }, want: call("str", o.k, "v"), desc: "Inline(comparable struct with uncomparable contents)"}
 			}
 			o := om{g.Key()}
 			return built{f: zap.Inline(o), again: func() zapcore.Field { return zap.Inline(o) }, want: call("str", o.k, "v"), desc: "Inline"}
@@ -301,6 +319,11 @@ func rows() []row {
 				want: []rec.Call{{Kind: "object", Key: key, Sub: []rec.Call{{Kind: "int", Key: "a", Val: v}, {Kind: "bool", Key: "b", Val: true}}}}, anyF: &a, desc: "Dict"}
 		}},
 		{"Array", func(g *gen.G, key string) built {
+			if g.R.P(1, 4) {
+				m := amHolder{hidden(g), 1}
+				a := zap.Any(key, m)
+				return built{f: zap.Array(key, m), again: func() zapcore.Field { return zap.Array(key, m) }, want: []rec.Call{{Kind: "array", Key: key, Sub: []rec.Call{{Kind: "int", Val: int64(2)}}}}, anyF: &a, desc: "Array(comparable array with uncomparable contents)"}
+			}
 			m := am{g.R.Intn(4)}
 			sub := []rec.Call{}
 			for i := 0; i < m.n; i++ {
@@ -339,6 +362,33 @@ func rows() []row {
 			}
 			return built{f: zap.Stringers(key, ss), again: func() zapcore.Field { return zap.Stringers(key, clone(ss)) }, want: []rec.Call{{Kind: "array", Key: key, Sub: sub}}, desc: "Stringers"}
 		}},
+		{"Any(value matching several cases)", func(g *gen.G, key string) built {
+			k := g.Key()
+			switch g.R.Intn(5) {
+			case 0:
+				v := omErr{k}
+				a := zap.Any(key, v)
+				return built{f: zap.Object(key, v), again: func() zapcore.Field { return zap.Object(key, v) }, want: []rec.Call{{Kind: "object", Key: key, Sub: call("str", k, "v")}}, anyF: &a, desc: "Any(ObjectMarshaler that is also an error)"}
+			case 1:
+				v := omStr{k}
+				a := zap.Any(key, v)
+				return built{f: zap.Object(key, v), again: func() zapcore.Field { return zap.Object(key, v) }, want: []rec.Call{{Kind: "object", Key: key, Sub: call("str", k, "v")}}, anyF: &a, desc: "Any(ObjectMarshaler that is also a Stringer)"}
+			case 2:
+				v := amErr{3}
+				a := zap.Any(key, v)
+				return built{f: zap.Array(key, v), again: func() zapcore.Field { return zap.Array(key, v) }, want: []rec.Call{{Kind: "array", Key: key, Sub: []rec.Call{{Kind: "int", Val: int64(3)}}}}, anyF: &a, desc: "Any(ArrayMarshaler that is also an error)"}
+			case 3:
+				v := amStr{4}
+				a := zap.Any(key, v)
+				return built{f: zap.Array(key, v), again: func() zapcore.Field { return zap.Array(key, v) }, want: []rec.Call{{Kind: "array", Key: key, Sub: []rec.Call{{Kind: "int", Val: int64(4)}}}}, anyF: &a, desc: "Any(ArrayMarshaler that is also a Stringer)"}
+			default:
+				// error and Stringer at once: either typed constructor corresponds; not judged (anyAlt)
+				v := errStr{k}
+				a := zap.Any(key, v)
+				alt := zap.Stringer(key, v)
+				return built{f: zap.NamedError(key, v), again: func() zapcore.Field { return zap.NamedError(key, v) }, want: call("str", key, v.Error()), anyF: &a, anyAlt: &alt, desc: "Any(error that is also a Stringer)"}
+			}
+		}},
 		{"Namespace", func(g *gen.G, key string) built {
 			return built{f: zap.Namespace(key), again: func() zapcore.Field { return zap.Namespace(key) }, want: call("ns", key, nil), desc: "Namespace"}
 		}},
@@ -362,6 +412,63 @@ func rows() []row {
 	}
 	return rs
 }
+
+// comparable static types whose contents are uncomparable: == on them panics at run time
+// although reflect.Type.Comparable() is true.
+type holder struct{ X interface{} }
+
+type strHolder struct{ X interface{} }
+
+func (s strHolder) String() string { return fmt.Sprint(s.X) }
+
+type errHolder struct{ X interface{} }
+
+func (e errHolder) Error() string { return fmt.Sprint(e.X) }
+
+type omHolder struct {
+	k string
+	X interface{}
+}
+
+func (o omHolder) MarshalLogObject(e zapcore.ObjectEncoder) error { e.AddString(o.k, "v"); return nil }
+
+type amHolder [2]interface{}
+
+func (a amHolder) MarshalLogArray(e zapcore.ArrayEncoder) error { e.AppendInt(len(a)); return nil }
+
+func hidden(g *gen.G) interface{} {
+	if g.R.Bool() {
+		return []int{1, int(g.Int64(8))}
+	}
+	return map[string]int{g.Str(): 1}
+}
+
+// types matching more than one case of zap.Any: a value that can marshal itself is
+// represented by its marshaler (the error / Stringer text would be a reduction of it).
+type omErr struct{ k string }
+
+func (o omErr) MarshalLogObject(e zapcore.ObjectEncoder) error { e.AddString(o.k, "v"); return nil }
+func (o omErr) Error() string                                  { return "omErr:" + o.k }
+
+type omStr struct{ k string }
+
+func (o omStr) MarshalLogObject(e zapcore.ObjectEncoder) error { e.AddString(o.k, "v"); return nil }
+func (o omStr) String() string                                 { return "omStr:" + o.k }
+
+type amErr struct{ n int }
+
+func (a amErr) MarshalLogArray(e zapcore.ArrayEncoder) error { e.AppendInt(a.n); return nil }
+func (a amErr) Error() string                                { return "amErr" }
+
+type amStr struct{ n int }
+
+func (a amStr) MarshalLogArray(e zapcore.ArrayEncoder) error { e.AppendInt(a.n); return nil }
+func (a amStr) String() string                               { return "amStr" }
+
+type errStr struct{ s string }
+
+func (e errStr) Error() string  { return "error:" + e.s }
+func (e errStr) String() string { return "string:" + e.s }
 
 type stringerSlice []string
 
@@ -482,9 +589,16 @@ func Run(r *ev.Run) {
 				if p != "" {
 					r.Violate(ev.Violation{Case: id, Class: "any-panic", Msg: b.desc + ": Any field panicked: " + p})
 				} else if d := rec.SameCalls(got, gotAny); d != "" {
+					if b.anyAlt != nil {
+						if gotAlt, _ := spy(*b.anyAlt); rec.SameCalls(gotAlt, gotAny) == "" {
+							r.Count("any_with_two_corresponding_constructors", 1)
+							goto anyDone
+						}
+					}
 					r.Violate(ev.Violation{Case: id, Class: "any-differs:" + rw.name, Msg: fmt.Sprintf("%s: zap.Any chose a different representation than the typed constructor: %s", b.desc, d), Witness: b.desc})
 				}
 			}
+		anyDone:
 			// Equals
 			g2 := b.again()
 			var eqSelf, eqFG, eqGF bool
